@@ -2,17 +2,17 @@
 From Coq Require Import List NArith Bool Lia Arith.
 From SNT Require Import Decoder.SgrRef.
 From SNT Require Import Base.Outcome Automata.DfaData Automata.Tokenizer Automata.TokenizerTheorems.
-From SNT Require Import Decoder.EvModel Decoder.Printer Decoder.EvProd Decoder.EvProofs Decoder.EvFamilies Decoder.EvFamilies2 Decoder.EvXterm Decoder.EvFaces Decoder.EvColor.
+From SNT Require Import Decoder.EvModel Decoder.Printer Decoder.EvProd Decoder.EvProofs Decoder.EvFamilies Decoder.EvFamilies2 Decoder.EvXterm Decoder.EvFaces Decoder.EvColor Decoder.EvKitty.
 From SNT Require Import Gen.ProdDFA Gen.C04Keys.
 Import ListNotations.
 Local Open Scope N_scope.
 
 (* the families whose single-report theorem is proved for all parameter values; the remaining
-   two (kitty image replies, XTGETTCAP replies) are covered by the
+   one (XTGETTCAP replies) is covered by the
    correspondence run only *)
 Definition proved_family (r : report) : bool :=
   match r with
-  | RKittyImage _ _ _ | RTermcapOk _ _ | RTermcapFail _ _ | RSgr _ => false
+  | RTermcapOk _ _ | RTermcapFail _ _ | RSgr _ => false
   | _ => true
   end.
 
@@ -30,6 +30,7 @@ Proof.
   - apply single_size.
   - apply single_decmode, Hwf.
   - apply single_da, Hwf.
+  - apply single_kimg, Hwf.
   - apply single_color, Hwf.
   - apply single_paste, Hwf.
   - apply single_facerep, Hwf.
